@@ -1,7 +1,9 @@
 import Labella.Model.Process
+import Labella.Model.Options
 import Labella.Model.CalSpec
 import Labella.Proofs.CalendarLemmas
 import Labella.Proofs.ProcessLemmas
+import Labella.Proofs.OptionsLemmas
 /-! # C10 — a timeline's export depends only on its own data and options
 
 Model: what timelines can share inside one process — scale objects and engine-option dicts as cells; the repaired
@@ -28,5 +30,257 @@ theorem legacy_shared_counterexample :
       ≠ expected [] [.construct 0 ⟨"a0", "a1", "up"⟩, .construct 1 ⟨"b0", "b1", "left"⟩, .export 0] := by
   decide
 
+
+/-! ### who can write where: the constructor's option objects (`Model/Options.lean`) -/
+section Objects
+open Labella.Options
+
+/-- a heap in which the module-level objects exist and the caller's dict (if any) is not one of them; the dict a caller's `latex` entry refers to
+(if any) exists -/
+def CallerOK (h : Heap) (opts : Option Nat) : Prop :=
+  nModuleDicts ≤ h.dicts.size ∧ 1 ≤ h.scales.size ∧
+  ∀ o, opts = some o → nModuleDicts ≤ o ∧ o < h.dicts.size
+
+/-- **Frame of `Timeline.__init__`.**  Whatever the heap and the caller's dict: the constructor changes NO existing dict object except the
+caller's own `options` dict, and that one only at the key `latex` (the documented write-back of the merged LaTeX settings, pointing to a NEW
+dict); in particular the module-level `DEFAULT_OPTIONS` and its `margin`, `labelPadding`, `labella`, `latex` dicts — which every timeline without
+its own `margin` / `labelPadding` shares by reference — are never written.  Everything else it writes is an object it has just created. -/
+theorem construct_frame (h : Heap) (opts : Option Nat) (dom : String) (hok : CallerOK h opts) :
+    (∀ j, j < h.dicts.size → opts ≠ some j → (construct h opts dom).1.dict j = h.dict j) ∧
+    (∀ o, opts = some o → ∃ L, h.dicts.size ≤ L ∧ (construct h opts dom).1.dict o = dset (h.dict o) "latex" (.dict L)) ∧
+    h.dicts.size ≤ (construct h opts dom).2 ∧ h.dicts.size ≤ (construct h opts dom).1.dicts.size := by
+  have ho : ∀ o, opts = some o → o < h.dicts.size := fun o h1 => (hok.2.2 o h1).2
+  refine ⟨fun j hj hne => construct_dict_of_ne dom ho hj hne, fun o hopts => ?_, ?_, ?_⟩
+  · obtain ⟨L, h1, _, h2⟩ := construct_dict_caller dom ho hopts
+    exact ⟨L, h1, h2⟩
+  · have := construct_snd_ge dom ho; omega
+  · have := construct_size_ge dom ho; omega
+
+/-- the caller's dict is a Python dict: no key occurs twice (`DictWF`).  The association lists of the model allow duplicate keys; for such a list
+`dget` finds the FIRST entry of a key whereas `dupdate` lets the LAST one win. -/
+def CallerWF (h : Heap) (opts : Option Nat) : Prop := ∀ o, opts = some o → DictWF (h.dict o)
+
+/-- the only existing SCALE object the constructor can touch is one the caller supplied under `scale` (sharing the caller asked for); without
+such an entry the timeline's scale is a new object, and the module-level default scale keeps its domain.
+
+CORRECTED statement: the hypothesis `CallerWF` (no duplicate keys in the caller's dict) was added; without it the first part is false, see
+`construct_scale_frame_needs_wf` below.  `construct_scale_frame_mem` is the variant that needs no such hypothesis. -/
+theorem construct_scale_frame (h : Heap) (opts : Option Nat) (dom : String) (hok : CallerOK h opts) (hwf : CallerWF h opts) :
+    (∀ s, s < h.scales.size → (∀ o, opts = some o → dget (h.dict o) "scale" ≠ some (.scale s)) →
+        (construct h opts dom).1.scales[s]? = h.scales[s]?) ∧
+    ((∀ o, opts = some o → dhas (h.dict o) "scale" = false) →
+        ∃ s, h.scales.size ≤ s ∧ dget ((construct h opts dom).1.dict (construct h opts dom).2) "scale" = some (.scale s)) := by
+  have ho : ∀ o, opts = some o → o < h.dicts.size := fun o h1 => (hok.2.2 o h1).2
+  refine ⟨fun s hs hne => ?_, fun hno => ⟨h.scales.size, Nat.le_refl _, (construct_fresh_scale dom ho hno).1⟩⟩
+  exact construct_scales_of_not_mem dom ho hs (fun o hopts hm => hne o hopts (dget_of_mem_of_wf (hwf o hopts) hm))
+
+/-- the same without well-formedness: an existing scale object that does not occur AT ALL under `scale` in the caller's dict is not written -/
+theorem construct_scale_frame_mem (h : Heap) (opts : Option Nat) (dom : String) (hok : CallerOK h opts) (s : Nat) (hs : s < h.scales.size)
+    (hne : ∀ o, opts = some o → ("scale", Val.scale s) ∉ h.dict o) :
+    (construct h opts dom).1.scales[s]? = h.scales[s]? :=
+  construct_scales_of_not_mem dom (fun o h1 => (hok.2.2 o h1).2) hs hne
+
+/-- counterexample to the first part of `construct_scale_frame` without `CallerWF`: the caller's list has `scale` twice; `dget` sees scale object 1,
+the `update` in the constructor takes the last entry, the module-level scale object 0, and `init_axis` writes the domain into it -/
+theorem construct_scale_frame_needs_wf :
+    let h : Heap := (Heap.init.allocDict [("scale", .scale 1), ("scale", .scale 0)]).1
+    CallerOK h (some 5) ∧ dget (h.dict 5) "scale" ≠ some (.scale 0) ∧ (construct h (some 5) "DOM").1.scales[0]? ≠ h.scales[0]? := by
+  refine ⟨⟨by decide, by decide, fun o ho => ?_⟩, by decide, by decide⟩
+  cases ho; decide
+
+/-- the dict references in `d` point to existing objects, none of which is the dict `b` -/
+def RefsAvoid (h : Heap) (d : Dict) (b : Option Nat) : Prop := ∀ k r, (k, Val.dict r) ∈ d → r < h.dicts.size ∧ b ≠ some r
+
+/-- executable form of `RefsAvoid` -/
+def refsAvoidB (h : Heap) (d : Dict) (b : Option Nat) : Bool :=
+  d.all fun p => match p.2 with
+    | .dict r => decide (r < h.dicts.size) && decide (b ≠ some r)
+    | _ => true
+
+theorem refsAvoid_of_check {h : Heap} {d : Dict} {b : Option Nat} (hc : refsAvoidB h d b = true) : RefsAvoid h d b := by
+  intro k r hp
+  have := List.all_eq_true.1 hc _ hp
+  simpa using this
+
+/-- **Isolation at the level of objects.**  Build timeline A (caller dict `a` or none), then timeline B with ANY caller dict `b` — the same
+dict object as A's (`b = a`: what the scripts in `examples/` do), a different one, or none — that does not hand B a scale object A uses:
+everything A's export reads (its options dict, every dict it refers to, its scale's domain) is exactly what it was before B was built.
+
+CORRECTED statement: the hypothesis `hrefs` was added — the dicts A's options dict refers to exist, and B's caller dict is not one of them.  Without
+it the statement is false (`second_timeline_needs_refs_not_b`: `b` is the `margin` dict A's caller dict refers to, and gets a `latex` entry;
+`second_timeline_needs_refs_in_bounds`: a dangling reference in A's caller dict comes to life when B's objects are allocated).
+`second_timeline_leaves_first_alone_pre` derives `hrefs` from the heap before A is built. -/
+theorem second_timeline_leaves_first_alone (h : Heap) (a b : Option Nat) (domA domB : String)
+    (hA : CallerOK h a) (hB : CallerOK (construct h a domA).1 b)
+    (hnoscaleA : ∀ o, a = some o → dhas (h.dict o) "scale" = false)
+    (hbnew : ∀ o, b = some o → o < h.dicts.size ∨ (construct h a domA).1.dicts.size ≤ o)   -- b existed before A, or is created after A: not one of A's own objects
+    (hnoscaleB : ∀ o, b = some o → dhas ((construct h a domA).1.dict o) "scale" = false)
+    (hrefs : RefsAvoid (construct h a domA).1 ((construct h a domA).1.dict (construct h a domA).2) b) :
+    view (construct (construct h a domA).1 b domB).1 (construct h a domA).2 = view (construct h a domA).1 (construct h a domA).2 := by
+  have hoA : ∀ o, a = some o → o < h.dicts.size := fun o h1 => (hA.2.2 o h1).2
+  have hoB : ∀ o, b = some o → o < (construct h a domA).1.dicts.size := fun o h1 => (hB.2.2 o h1).2
+  have hSlt := construct_snd_lt domA hoA
+  have hSge := construct_snd_ge domA hoA
+  obtain ⟨hsc, hscsize⟩ := construct_fresh_scale domA hoA hnoscaleA
+  -- A's options dict is not B's caller dict
+  have hd : (construct (construct h a domA).1 b domB).1.dict (construct h a domA).2 = (construct h a domA).1.dict (construct h a domA).2 := by
+    apply construct_dict_of_ne domB hoB hSlt
+    intro hb
+    rcases hbnew _ hb with h1 | h1 <;> omega
+  -- A's scale is not written
+  have hs : (construct (construct h a domA).1 b domB).1.scales[h.scales.size]? = (construct h a domA).1.scales[h.scales.size]? := by
+    apply construct_scales_of_not_mem domB hoB (by omega)
+    intro o hb
+    exact not_mem_of_dhas_false (hnoscaleB o hb) _
+  refine view_congr hd (fun k r hp => ?_) (fun s hs' => ?_)
+  · obtain ⟨h1, h2⟩ := hrefs k r hp
+    exact construct_dict_of_ne domB hoB h1 h2
+  · rw [hsc] at hs'
+    cases hs'
+    exact hs
+
+/-- `hrefs` from the heap before A is built: the references in the module-level `DEFAULT_OPTIONS` and in A's caller dict exist and are not `b` -/
+theorem second_timeline_leaves_first_alone_pre (h : Heap) (a b : Option Nat) (domA domB : String)
+    (hA : CallerOK h a) (hB : CallerOK (construct h a domA).1 b)
+    (hnoscaleA : ∀ o, a = some o → dhas (h.dict o) "scale" = false)
+    (hbnew : ∀ o, b = some o → o < h.dicts.size ∨ (construct h a domA).1.dicts.size ≤ o)
+    (hnoscaleB : ∀ o, b = some o → dhas ((construct h a domA).1.dict o) "scale" = false)
+    (hrefs0 : RefsAvoid h (h.dict idDefaults) b) (hrefsA : ∀ o, a = some o → RefsAvoid h (h.dict o) b) :
+    view (construct (construct h a domA).1 b domB).1 (construct h a domA).2 = view (construct h a domA).1 (construct h a domA).2 := by
+  have hoA : ∀ o, a = some o → o < h.dicts.size := fun o h1 => (hA.2.2 o h1).2
+  have hge := construct_size_ge domA hoA
+  apply second_timeline_leaves_first_alone h a b domA domB hA hB hnoscaleA hbnew hnoscaleB
+  intro k r hp
+  have h0 : idDefaults < h.dicts.size := Nat.lt_of_lt_of_le (by decide) hA.1
+  rcases mem_construct_self domA hoA h0 hp with hp | ⟨o, ho, hp⟩ | ⟨r', hr', h1, h2⟩ | ⟨s, hs⟩
+  · obtain ⟨h1, h2⟩ := hrefs0 k r hp
+    exact ⟨by omega, h2⟩
+  · obtain ⟨h1, h2⟩ := hrefsA o ho k r hp
+    exact ⟨by omega, h2⟩
+  · cases hr'
+    refine ⟨h2, fun hb => ?_⟩
+    have := (hB.2.2 r hb).2
+    rcases hbnew r hb with h3 | h3 <;> omega
+  · cases hs
+
+/-! #### the two ways the uncorrected isolation statement fails -/
+
+/-- `b` is the `margin` dict (object 5) A's caller dict (object 6) refers to: building B writes `latex` into it, and A's view shows it -/
+theorem second_timeline_needs_refs_not_b :
+    let h : Heap := ((Heap.init.allocDict [("left", .atom "1")]).1.allocDict [("margin", .dict 5)]).1
+    CallerOK h (some 6) ∧ CallerOK (construct h (some 6) "A").1 (some 5) ∧ dhas (h.dict 6) "scale" = false ∧ 5 < h.dicts.size ∧
+      dhas ((construct h (some 6) "A").1.dict 5) "scale" = false ∧
+      view (construct (construct h (some 6) "A").1 (some 5) "B").1 (construct h (some 6) "A").2 ≠ view (construct h (some 6) "A").1 (construct h (some 6) "A").2 := by
+  refine ⟨⟨by decide, by decide, fun o ho => ?_⟩, ⟨by decide, by decide, fun o ho => ?_⟩, by decide, by decide, by decide, by decide⟩
+  · cases ho; decide
+  · cases ho; decide
+
+/-- A's caller dict (object 5) has a dangling reference (object 10); B is built without options, and its new objects 9, 10, … fill the gap -/
+theorem second_timeline_needs_refs_in_bounds :
+    let h : Heap := (Heap.init.allocDict [("margin", .dict 10)]).1
+    CallerOK h (some 5) ∧ CallerOK (construct h (some 5) "A").1 none ∧ dhas (h.dict 5) "scale" = false ∧
+      view (construct (construct h (some 5) "A").1 none "B").1 (construct h (some 5) "A").2 ≠ view (construct h (some 5) "A").1 (construct h (some 5) "A").2 := by
+  refine ⟨⟨by decide, by decide, fun o ho => ?_⟩, ⟨by decide, by decide, fun o ho => by cases ho⟩, by decide, by decide⟩
+  cases ho; decide
+
+/-! #### non-vacuity: the statements on concrete heaps -/
+
+/-- the heap after `import labella.timeline`, a caller-owned `margin` dict (object 5) and a caller dict referring to it (object 6) -/
+def exHeap1 : Heap := ((Heap.init.allocDict [("left", .atom "7")]).1.allocDict [("direction", .atom "up"), ("margin", .dict 5)]).1
+
+theorem exHeap1_ok : CallerOK exHeap1 (some 6) :=
+  ⟨by decide, by decide, fun o ho => by cases ho; decide⟩
+
+/-- (1) after the constructor the module-level dicts 0 … 4 and the caller's `margin` dict are what they were, the caller's dict has gained exactly
+`latex` (pointing to the new object 7, the merged LaTeX settings), and the timeline's options (object 8) use the caller's margin dict, an own
+`labella` dict (object 9) and an own scale (object 1) -/
+example :
+    ((List.range 6).all fun j => (construct exHeap1 (some 6) "A").1.dict j == exHeap1.dict j) = true ∧
+    (construct exHeap1 (some 6) "A").1.dict 6 = [("direction", .atom "up"), ("margin", .dict 5), ("latex", .dict 7)] ∧
+    (construct exHeap1 (some 6) "A").1.dict 7 = Heap.init.dict idLatex ∧
+    (construct exHeap1 (some 6) "A").2 = 8 ∧
+    (construct exHeap1 (some 6) "A").1.dict 8 =
+      [("margin", .dict 5), ("initialWidth", .atom "400"), ("scale", .scale 1), ("domain", .atom "None"), ("direction", .atom "up"),
+       ("layerGap", .atom "60"), ("labella", .dict 9), ("labelPadding", .dict idPadding), ("showTicks", .atom "True"), ("latex", .dict 7)] ∧
+    (construct exHeap1 (some 6) "A").1.dict 9 = [("direction", .atom "up")] ∧
+    (construct exHeap1 (some 6) "A").1.scales = #["default", "A"] := by
+  decide
+
+/-- … and this is an instance of `construct_frame` / `construct_scale_frame` (their hypotheses hold here) -/
+example : (construct exHeap1 (some 6) "A").1.dict idMargin = exHeap1.dict idMargin :=
+  (construct_frame exHeap1 (some 6) "A" exHeap1_ok).1 idMargin (by decide) (by decide)
+example : (construct exHeap1 (some 6) "A").1.scales[0]? = exHeap1.scales[0]? :=
+  (construct_scale_frame exHeap1 (some 6) "A" exHeap1_ok (fun o ho => by cases ho; decide)).1 0 (by decide) (fun o ho => by cases ho; decide)
+
+/-- (2) the `examples/` pattern: ONE caller dict (object 5, no `scale`) for two timelines with different domains -/
+def exHeap2 : Heap := (Heap.init.allocDict [("direction", .atom "up"), ("initialWidth", .atom "600")]).1
+
+/-- the hypotheses of `second_timeline_leaves_first_alone` hold for it (`a = b = some 5`), so the first timeline's view is untouched … -/
+theorem example_pattern_isolated :
+    view (construct (construct exHeap2 (some 5) "A").1 (some 5) "B").1 (construct exHeap2 (some 5) "A").2
+      = view (construct exHeap2 (some 5) "A").1 (construct exHeap2 (some 5) "A").2 := by
+  refine second_timeline_leaves_first_alone exHeap2 (some 5) (some 5) "A" "B"
+    ⟨by decide, by decide, fun o ho => by cases ho; decide⟩ ⟨by decide, by decide, fun o ho => by cases ho; decide⟩
+    (fun o ho => by cases ho; decide) (fun o ho => by cases ho; exact Or.inl (by decide)) (fun o ho => by cases ho; decide) ?_
+  exact refsAvoid_of_check (by decide)
+
+/-- … (the same by evaluation), the view is not trivial: it shows A's domain, and the two timelines (options dicts 7 and 10) refer to different
+scale objects, different `labella` dicts and different merged-latex dicts; the shared caller dict points to the LAST latex dict -/
+example :
+    view (construct (construct exHeap2 (some 5) "A").1 (some 5) "B").1 7 = view (construct exHeap2 (some 5) "A").1 7 ∧
+    (view (construct (construct exHeap2 (some 5) "A").1 (some 5) "B").1 7).2.2 = some "A" ∧
+    (view (construct (construct exHeap2 (some 5) "A").1 (some 5) "B").1 10).2.2 = some "B" ∧
+    (construct exHeap2 (some 5) "A").2 = 7 ∧ (construct (construct exHeap2 (some 5) "A").1 (some 5) "B").2 = 10 ∧
+    dget ((construct (construct exHeap2 (some 5) "A").1 (some 5) "B").1.dict 7) "scale" = some (.scale 1) ∧
+    dget ((construct (construct exHeap2 (some 5) "A").1 (some 5) "B").1.dict 10) "scale" = some (.scale 2) ∧
+    dget ((construct (construct exHeap2 (some 5) "A").1 (some 5) "B").1.dict 7) "labella" = some (.dict 8) ∧
+    dget ((construct (construct exHeap2 (some 5) "A").1 (some 5) "B").1.dict 10) "labella" = some (.dict 11) ∧
+    dget ((construct (construct exHeap2 (some 5) "A").1 (some 5) "B").1.dict 7) "latex" = some (.dict 6) ∧
+    dget ((construct (construct exHeap2 (some 5) "A").1 (some 5) "B").1.dict 10) "latex" = some (.dict 9) ∧
+    (construct (construct exHeap2 (some 5) "A").1 (some 5) "B").1.dict 5 =
+      [("direction", .atom "up"), ("initialWidth", .atom "600"), ("latex", .dict 9)] ∧
+    (construct (construct exHeap2 (some 5) "A").1 (some 5) "B").1.scales = #["default", "A", "B"] := by
+  decide
+
+/-- (3) for contrast, the seeded change C10-scale-written-into-caller-options: `options.setdefault("scale", TimeScale())` — the new scale object is
+written into the CALLER's dict (from where `self.options.update(options)` picks it up), the rest of the constructor is unchanged -/
+def constructLeaky (h : Heap) (opts : Option Nat) (dom : String) : Heap × Nat :=
+  let (h, o) := match opts with
+    | some o => (h, o)
+    | none => h.allocDict []
+  let h := if dhas (h.dict o) "scale" then h else
+    let r := h.allocScale "fresh"
+    r.1.setDict o (dset (r.1.dict o) "scale" (.scale r.2))
+  construct h (some o) dom
+
+/-- one timeline alone behaves as before … -/
+example : view (constructLeaky exHeap2 (some 5) "A").1 (constructLeaky exHeap2 (some 5) "A").2
+    = view (construct exHeap2 (some 5) "A").1 (construct exHeap2 (some 5) "A").2 := by
+  decide
+
+/-- … but with the shared caller dict the second timeline gets the FIRST timeline's scale object out of the caller's dict and re-domains it:
+the first timeline's view changes (its scale now shows "B"), which `second_timeline_leaves_first_alone` excludes for `construct`
+(`example_pattern_isolated`, same heap, same dict, same domains) -/
+theorem leaky_breaks_isolation :
+    view (constructLeaky (constructLeaky exHeap2 (some 5) "A").1 (some 5) "B").1 (constructLeaky exHeap2 (some 5) "A").2
+      ≠ view (constructLeaky exHeap2 (some 5) "A").1 (constructLeaky exHeap2 (some 5) "A").2 ∧
+    (view (constructLeaky exHeap2 (some 5) "A").1 (constructLeaky exHeap2 (some 5) "A").2).2.2 = some "A" ∧
+    (view (constructLeaky (constructLeaky exHeap2 (some 5) "A").1 (some 5) "B").1 (constructLeaky exHeap2 (some 5) "A").2).2.2 = some "B" ∧
+    -- the two timelines share one scale object, and the caller's dict now carries it
+    dget ((constructLeaky (constructLeaky exHeap2 (some 5) "A").1 (some 5) "B").1.dict (constructLeaky exHeap2 (some 5) "A").2) "scale"
+      = dget ((constructLeaky (constructLeaky exHeap2 (some 5) "A").1 (some 5) "B").1.dict
+          (constructLeaky (constructLeaky exHeap2 (some 5) "A").1 (some 5) "B").2) "scale" ∧
+    dget ((constructLeaky exHeap2 (some 5) "A").1.dict 5) "scale" = some (.scale 1) := by
+  decide
+
+/-- the frame theorem tells the two apart as well: the leaky constructor writes the caller's dict at a key other than `latex` -/
+example : ¬ ∃ L, (constructLeaky exHeap2 (some 5) "A").1.dict 5 = dset (exHeap2.dict 5) "latex" (.dict L) := by
+  rintro ⟨L, hL⟩
+  have := congrArg (fun d => dhas d "scale") hL
+  rw [dhas_dset] at this
+  revert this
+  decide
+
+end Objects
 
 end Labella.C10
